@@ -16,6 +16,7 @@
   lemma (sound_any_input)    C16 soundness has no validity precondition: whenever the sign-free pipeline returns, check_LC holds for the given operators.
 """
 from __future__ import annotations
+import itertools
 import ast, inspect, itertools, random, textwrap, time
 import numpy as np
 from .. import core, symrun, adapt, e2e
@@ -303,6 +304,57 @@ def invalid_job(args):
     return out
 
 
+def _signed_group_consistent(n, paulis):
+    """(commute, consistent): pairwise commuting, and -I is not in the generated signed group"""
+    for i in range(len(paulis)):
+        for j in range(i + 1, len(paulis)):
+            if not P.commute(paulis[i], paulis[j]):
+                return False, False
+    basis = []          # (key, pauli) with distinct leading bits
+    for p in paulis:
+        cur = p
+        for k, b in basis:
+            key = cur[0] | (cur[1] << n)
+            if key & (1 << (k.bit_length() - 1)):
+                cur = P.mul(cur, b)
+        key = cur[0] | (cur[1] << n)
+        if key == 0:
+            if cur[2]:
+                return True, False
+            continue
+        basis.append((key, cur))
+        basis.sort(key=lambda t: -t[0])
+    return True, True
+
+
+def synth_job(args):
+    """the synthesis helper behind the sign step, called directly with every combination of its switches: whatever the switches, a returned circuit prepares a state that
+    every given signed operator stabilises, and a list that no state satisfies (anticommuting operators, or -I in the generated group) is always rejected"""
+    n, lists = args
+    from htstabilizer.rotate_stabilizer_into_state import synth_circuit_from_stabilizers
+    out = []
+    for labels in lists:
+        paulis = [P.from_label(l[0] + l[1:][::-1]) for l in labels]          # labels are in qiskit convention (rightmost character = qubit 0)
+        commute, consistent = _signed_group_consistent(n, paulis)
+        for red in (False, True):
+            for under in (False, True):
+                rp = {"n": n, "paulis": labels, "allow_redundant": red, "allow_underconstrained": under,
+                      "python": f"synth_circuit_from_stabilizers({labels}, allow_redundant={red}, allow_underconstrained={under})"}
+                try:
+                    qc = synth_circuit_from_stabilizers(list(labels), allow_redundant=red, allow_underconstrained=under)
+                except Exception as e:
+                    out.append(("C08.synth.switches", True, "", "", None))          # a rejection is always allowed by this property
+                    continue
+                gates = adapt.gates_of(qc)
+                cg = P.canon(n, P.state_generators(n, gates))
+                got = [P.member_sign(n, cg, (x, z, 0)) for x, z, _ in paulis]
+                ok = consistent and all(g is not None and g == p[2] for g, p in zip(got, paulis))
+                out.append(("C08.synth.switches", ok, f"synth:{n}:{labels}:{red}:{under}",
+                            f"synth_circuit_from_stabilizers({labels}, allow_redundant={red}, allow_underconstrained={under}) returned a circuit; the operators "
+                            f"{'commute' if commute else 'do not commute'}, {'are satisfiable' if consistent else 'are NOT satisfiable by any state'}; sign bits in the prepared group: {got}", rp))
+    return out
+
+
 def all_pairs(n):
     cases = []
     for bits in range(1 << (2 * n * n)):
@@ -411,6 +463,21 @@ def run(ctx: core.Ctx):
             for ch in core.chunked(cs_, 4):
                 jobs.append((n, conn, ch))
     res2 = core.pmap(invalid_job, jobs, chunks=1)
+    # synthesis helper with all switch combinations: all lists of 1 and 2 signed 2-qubit operators (identity included), seeded lists of 3; seeded 3-qubit lists of 1..4
+    letters2 = ["".join(t) for t in itertools.product("IXYZ", repeat=2)]
+    ops2 = [sg + l for sg in "+-" for l in letters2]
+    sl = [[a] for a in ops2] + [[a, b] for a in ops2 for b in ops2] + [[rnd.choice(ops2) for _ in range(3)] for _ in range(300 if ctx.quick else 3000)]
+    ops3 = [sg + "".join(t) for sg in "+-" for t in itertools.product("IXYZ", repeat=3)]
+    sl3 = [[rnd.choice(ops3) for _ in range(rnd.randrange(1, 5))] for _ in range(600 if ctx.quick else 6000)]
+    fams = ctx.family("C08.synth.switches", GROUND, "native+oracle", "synth_circuit_from_stabilizers under every combination of allow_redundant / allow_underconstrained: a returned "
+                      "circuit satisfies every given signed operator; unsatisfiable lists are always rejected")
+    fams.exhaustive = True
+    fams.domain = "ALL lists of one and two signed 2-qubit Pauli strings (identity included) x 4 switch combinations; seeded lists of three 2-qubit and of 1..4 3-qubit strings"
+    for r in core.pmap(synth_job, [(2, ch) for ch in core.chunked(sl, 64)] + [(3, ch) for ch in core.chunked(sl3, 64)], chunks=1):
+        for famname, ok, key, what, rp in r:
+            ctx.record(fams, PROVED if ok else REFUTED, rp if fams.total < 2 and rp else None)
+            if not ok:
+                ctx.violate(fams, key, what, rp)
     for r in res:
         for famname, ok, key, what, rp in r:
             fam = ctx.family(famname, GROUND, "native")
@@ -443,6 +510,8 @@ def replay(data):
     inp = data["input"]
     if "entry_point" in inp:
         bad = [r for r in entry_job((inp["n"], inp["connectivity"])) if not r[1] and r[2] == data["key"]]
+    elif "allow_redundant" in inp:
+        bad = [r for r in synth_job((inp["n"], [inp["paulis"]])) if not r[1] and r[2] == data["key"]]
     elif "paulis" in inp:
         bad = [r for r in invalid_job((inp["n"], inp["connectivity"], [[P.from_label(l) for l in inp["paulis"]]])) if not r[1]]
     else:
